@@ -43,7 +43,7 @@ func genFastaRec(thorough bool) *rapid.Generator[FastaRec] {
 	seq := fastaSeqAlpha.BlobOf(gen.Lengths(170, bounds...), 330)
 	return rapid.Custom(func(t *rapid.T) FastaRec {
 		return FastaRec{
-			Name: fastaNameAlpha.Field(12, 120, 5000).Draw(t, "name"),
+			Name: fastaNameAlpha.Field(12, 120, 9000).Draw(t, "name"),
 			Seq:  seq.Draw(t, "seq"),
 		}
 	})
@@ -185,6 +185,7 @@ func checkC01(c C01Case, o *Obs) error {
 
 	o.Class("canonical")
 	var all bytes.Buffer
+	var keeper marshalKeeper
 	for i, r := range c.Recs {
 		fa := &fasta.Fasta{Name: bytes.Clone(r.Name), Sequence: bytes.Clone(seqs[i])}
 		var w bytes.Buffer
@@ -209,6 +210,11 @@ func checkC01(c C01Case, o *Obs) error {
 			return fmt.Errorf("record %d: %v", i, err)
 		}
 		all.Write(w.Bytes())
+		keeper.keep(fmt.Sprintf("record %d", i), mt)
+	}
+	(&fasta.Fasta{Name: []byte("another record"), Sequence: seqOfLen(97)}).MarshalText()
+	if err := keeper.verify(); err != nil {
+		return err
 	}
 	got, err := readFastaAll(all.Bytes())
 	if err != nil {
@@ -261,6 +267,14 @@ func exhaustiveC01(thorough bool, emit func(C01Case) bool) {
 			if !emit(C01Case{Recs: []FastaRec{{Name: name, Seq: gen.Lit(seqOfLen(n))}}}) {
 				return
 			}
+		}
+	}
+	// Very long names (beyond bufio's 4096-byte buffer and beyond 64 KiB).
+	for _, n := range []int{4094, 4095, 4096, 4097, 8192, 65536, 70000} {
+		name := bytes.Repeat([]byte("n>m "), n/4+1)[:n]
+		recs := []FastaRec{{Name: name, Seq: gen.Lit(seqOfLen(81))}, {Name: gen.B("after"), Seq: gen.Lit(seqOfLen(5))}}
+		if !emit(C01Case{Recs: recs}) || !emit(C01Case{Recs: recs, Layout: &FastaLayout{Widths: []int{7}, Blanks: []int{0}, CRLF: true}}) {
+			return
 		}
 	}
 	// All pairs of boundary lengths.
